@@ -18,6 +18,10 @@ CLAIMED = {
         technique="exhaustive enumeration of the CRC state space on the real code against bit-serial polynomial division",
         text="Bounded exhaustive exploration of the real modes_checksum / Message::try_from: all 2^32 four-byte prefixes (every 24-bit CRC state with every next byte), all 2^24 trailers, every 16-bit window at every offset of long frames, every 1-bit, 2-bit and burst<=24 error pattern, base frames x all 2^24 syndromes (thorough), all 2^24 addresses per AP format. Each case is compared with an independent bit-serial division. This is the right level because the CRC is a finite-state loop: covering every (state, byte) pair decides it for all lengths.",
         note="Trusted: the bit-serial reference division (15 lines, self-checked against its own per-byte linear form); the loop-body induction argument; AP payloads limited to 3 backgrounds (overlay is linear)."),
+    "C03": dict(engine=E1, design="4/C03",
+        technique="complete enumeration of every code of every listed field through frames built by an independent bit-level encoder, read back from the decoder's JSON",
+        text="For each field the property lists, every code is placed in a complete frame by a bit-level builder written from the Annex 10 / Doc 9871 / DO-260B tables (CRC by bit-serial division) and decoded by the real Message::try_from; the value read from the JSON must equal the encoded value within one quantisation step: addresses (DF11: all 2^24 in thorough, six 16-bit windows in quick; DF17/DF18 windows), 8 positions x all assigned character codes x 4 type codes x 8 categories and BDS 2,0 in DF20/21, all 8192 AC codes in DF4/DF20 and all 4096 ME codes x 13 type codes against the constructive Gillham reference, all 4096 squawks in DF5/DF21/BDS 6,1, ground velocity sign/magnitude pairs (all 2046^2 in thorough, a 73^2 grid x 4 sign combinations with every boundary in quick), all 1024 headings, 1023 airspeeds x IAS/TAS, 511 vertical rates x sign x source, 126 GNSS-baro differences x sign, 124 movement codes and 128 track codes x 4 type codes, BDS 6,2 (655 selected altitudes, 511 QNH, 512 headings), BDS 4,0 (451 altitudes x 2 selectors, 4096 QNH) and every code of every field of BDS 5,0 / 6,0 in DF20 and DF21 with a plausibility envelope (inside: must be reported and equal; outside: if reported, equal); DF20-as-BDS 0,5: all 4096 payload altitude codes x ~16 related header codes and 8 payload codes x all 8192 header codes.",
+        note="Trusted: the reference builder (cross-checked: every frame it builds must be accepted, and the repository's sample frames decode to the documented values); sentinel codes and supersonic subtypes are outside the property's quantifier; altitudes <= 0 ft or > 65,535 ft may be reported unavailable; the plausibility envelope for BDS 5,0/6,0 is the harness's conservative choice."),
     "C04": dict(engine=E1, design="4/C04",
         technique="complete enumeration of all CPR code cells (integer-exact encoder) through the real decoder",
         text="Every point on Earth collapses to finitely many code cells; latitude and longitude factorise through NL. The check enumerates all 7.8 M latitude cells x both orders x 3 longitude backgrounds, all 456 M longitude cells of all 59 bands x both orders x representative latitude cells, every mixed-band cell and every same-parity relabelling, calls the real airborne_position on each and compares with an integer-exact DO-260B encoder (NL from the closed form at 50 digits). Complete over the code space, so the verdict is exact up to the stated factorisation (re-checked at run time).",
